@@ -831,6 +831,10 @@ class Interp:
                     return None
             if name in ("clear", "copy"):
                 return getattr(recv, name)()
+            if name == "popitem" and not args:
+                if not recv:
+                    self.raise_(KeyError, "popitem(): dictionary is empty")
+                return recv.popitem()
         if isinstance(recv, set):
             if name in ("add", "remove", "discard"):
                 (x,) = args
@@ -845,6 +849,10 @@ class Interp:
                     raise PyRaise(ExcVal(type(e), list(e.args)))
             if name in ("clear", "copy"):
                 return getattr(recv, name)()
+            if name == "popitem" and not args:
+                if not recv:
+                    self.raise_(KeyError, "popitem(): dictionary is empty")
+                return recv.popitem()
         if is_concrete(recv) and is_concrete(args) and is_concrete(kwargs):
             try:
                 return getattr(recv, name)(*args, **kwargs)
